@@ -428,3 +428,195 @@ Proof.
   - intros Hin. apply (count_occ_In Nat.eq_dec) in Hin. destruct (Nat.ltb x (pnext s)); lia.
   - intros Hle. destruct (Nat.ltb_spec x (pnext s)); lia.
 Qed.
+
+(* ---- Pool: what one pass of Get does to the idle list ---- *)
+Lemma pdrain_spec ma now idle : forall cr de got idle' cr' de',
+  pdrain ma now idle cr de = (got, idle', cr', de') ->
+  exists pre, Forall (fun p => expired ma now (snd p) = true) pre /\ de' = de ++ map fst pre /\
+              cr' = cr - length pre /\
+    match got with
+    | Some x => exists last, idle = pre ++ (x, last) :: idle' /\ expired ma now last = false
+    | None => idle = pre /\ idle' = []
+    end.
+Proof.
+  induction idle as [|[x last] rest IH]; intros cr de got idle' cr' de' H; cbn in H.
+  - inversion H; subst. exists []. cbn. rewrite app_nil_r. repeat split; auto. lia.
+  - destruct (expired ma now last) eqn:E.
+    + destruct (IH _ _ _ _ _ _ H) as (pre & F & D & C & G). exists ((x, last) :: pre). cbn.
+      split; [constructor; auto|]. split; [rewrite D, <- app_assoc; reflexivity|]. split; [lia|].
+      destruct got as [y|].
+      * destruct G as (l & G1 & G2). exists l. rewrite G1. auto.
+      * destruct G as [G1 G2]. subst. auto.
+    + inversion H; subst. exists []. cbn. rewrite app_nil_r. repeat split; auto; try lia. exists last. auto.
+Qed.
+
+Lemma pmaxage_step s t s' : pstep s t = Some s' -> pmaxage s' = pmaxage s.
+Proof.
+  unfold pstep, pget. intros H.
+  destruct (nth_error (pthreads s) t) as [th|]; [|discriminate].
+  destruct (pcur th) as [o|]; [|discriminate].
+  destruct (pdrain (pmaxage s) (pclock s) (pidle s) (pcreated s) (pdestroyed s)) as [[[got idle'] cr'] de'].
+  destruct (ppcof th); [destruct o|];
+    repeat match type of H with
+           | context [match ?x with _ => _ end] => destruct x
+           | context [if ?x then _ else _] => destruct x
+           end; inversion H; reflexivity.
+Qed.
+
+Lemma pexec_maxage n ma scripts sched : pmaxage (pexec n ma scripts sched) = ma.
+Proof.
+  unfold pexec. apply (run_inv pstep (fun s => pmaxage s = ma)); [|reflexivity].
+  intros s t s' E H. rewrite (pmaxage_step _ _ _ H). exact E.
+Qed.
+
+Lemma list_cons_neq {A} (x : A) l : x :: l <> l.
+Proof. intros H. apply (f_equal (@length A)) in H. cbn in H. lia. Qed.
+
+(* any step, from any state: the resource a thread gains is fresh or a non-expired idle one;
+   whatever is destroyed was idle and expired *)
+Lemma pstep_handout s t s' th th' x :
+  pstep s t = Some s' -> nth_error (pthreads s) t = Some th -> nth_error (pthreads s') t = Some th' ->
+  pheld th' = x :: pheld th ->
+  (x = pnext s /\ pnext s' = S (pnext s)) \/
+  (exists last, In (x, last) (pidle s) /\ expired (pmaxage s) (pclock s) last = false).
+Proof.
+  intros H Ht Ht' Hh. unfold pstep in H. rewrite Ht in H.
+  destruct (pcur th) as [o|]; [|discriminate].
+  assert (G : forall sig, pget s t th sig = s' ->
+          (x = pnext s /\ pnext s' = S (pnext s)) \/
+          (exists last, In (x, last) (pidle s) /\ expired (pmaxage s) (pclock s) last = false)).
+  { intros sig E. unfold pget in E.
+    destruct (pdrain (pmaxage s) (pclock s) (pidle s) (pcreated s) (pdestroyed s)) as [[[got idle'] cr'] de'] eqn:D.
+    destruct (pdrain_spec _ _ _ _ _ _ _ _ _ D) as (pre & F & Dd & C & M).
+    destruct got as [y|].
+    - subst s'. cbn in Ht'. rewrite (nth_error_upd_nth_eq _ _ _ _ Ht) in Ht'. inversion Ht'; subst th'.
+      cbn in Hh. inversion Hh; subst y. right. destruct M as (last & M1 & M2). exists last.
+      split; [rewrite M1; apply in_or_app; right; left; reflexivity|exact M2].
+    - destruct (Nat.ltb cr' (plimit s)); subst s'; cbn in Ht';
+        rewrite (nth_error_upd_nth_eq _ _ _ _ Ht) in Ht'; inversion Ht'; subst th'; cbn in Hh.
+      + inversion Hh. left. split; reflexivity.
+      + exfalso. symmetry in Hh. eapply list_cons_neq; eauto. }
+  destruct (ppcof th).
+  - destruct o.
+    + injection H as E; exact (G _ E).
+    + exfalso. destruct (pheld th) as [|y rest] eqn:Eh; inversion H; subst s'; cbn in Ht';
+        rewrite (nth_error_upd_nth_eq _ _ _ _ Ht) in Ht'; inversion Ht'; subst th'; cbn in Hh.
+      * discriminate.
+      * apply (f_equal (@length nat)) in Hh. cbn in Hh. lia.
+    + exfalso. inversion H; subst s'; cbn in Ht'.
+      rewrite (nth_error_upd_nth_eq _ _ _ _ Ht) in Ht'; inversion Ht'; subst th'; cbn in Hh.
+      symmetry in Hh. eapply list_cons_neq; eauto.
+  - destruct (Nat.ltb 0 (psig s)); [|discriminate]. injection H as E; exact (G _ E).
+Qed.
+
+Lemma pool_never_hands_out_expired_l : forall n ma scripts sched t s' th th' x,
+  let s := pexec n ma scripts sched in
+  pstep s t = Some s' -> nth_error (pthreads s) t = Some th -> nth_error (pthreads s') t = Some th' ->
+  pheld th' = x :: pheld th ->
+  (x = pnext s /\ pnext s' = S (pnext s)) \/
+  (exists last, In (x, last) (pidle s) /\ ~ (0 < ma /\ last + ma < pclock s)%Z).
+Proof.
+  intros n ma scripts sched t s' th th' x s H Ht Ht' Hh.
+  destruct (pstep_handout s t s' th th' x H Ht Ht' Hh) as [A|(last & A & B)]; [left; exact A|right].
+  exists last. split; [exact A|]. unfold s in B. rewrite pexec_maxage in B. fold s in B.
+  unfold expired in B. intros [C1 C2]. apply andb_false_iff in B.
+  destruct B as [B|B]; [apply Z.ltb_ge in B|apply Z.ltb_ge in B]; lia.
+Qed.
+
+(* whatever a step destroys was idle and expired *)
+Lemma pstep_destroys s t s' y :
+  pstep s t = Some s' -> In y (pdestroyed s') ->
+  In y (pdestroyed s) \/ exists last, In (y, last) (pidle s) /\ expired (pmaxage s) (pclock s) last = true.
+Proof.
+  intros H Hy. unfold pstep in H.
+  destruct (nth_error (pthreads s) t) as [th|]; [|discriminate].
+  destruct (pcur th) as [o|]; [|discriminate].
+  assert (G : forall sig, pget s t th sig = s' ->
+     In y (pdestroyed s) \/ exists last, In (y, last) (pidle s) /\ expired (pmaxage s) (pclock s) last = true).
+  { intros sig E. unfold pget in E.
+    destruct (pdrain (pmaxage s) (pclock s) (pidle s) (pcreated s) (pdestroyed s)) as [[[got idle'] cr'] de'] eqn:D.
+    destruct (pdrain_spec _ _ _ _ _ _ _ _ _ D) as (pre & F & Dd & C & M).
+    assert (Hde : In y de').
+    { destruct got; [|destruct (Nat.ltb cr' (plimit s))]; subst s'; exact Hy. }
+    rewrite Dd in Hde. apply in_app_or in Hde. destruct Hde as [Hde|Hde]; [left; exact Hde|right].
+    apply in_map_iff in Hde. destruct Hde as ([y' last] & E1 & E2). cbn in E1. subst y'.
+    exists last. rewrite Forall_forall in F. split; [|apply (F _ E2)].
+    destruct got as [z|].
+    - destruct M as (l & M1 & _). rewrite M1. apply in_or_app. left. exact E2.
+    - destruct M as [M1 _]. rewrite M1. exact E2. }
+  destruct (ppcof th).
+  - destruct o.
+    + injection H as E; exact (G _ E).
+    + left. destruct (pheld th); inversion H; subst s'; exact Hy.
+    + left. inversion H; subst s'; exact Hy.
+  - destruct (Nat.ltb 0 (psig s)); [|discriminate]. injection H as E; exact (G _ E).
+Qed.
+
+(* ---- MaxConns only: scripts made of requests ---- *)
+Definition is_req (o : lop) : Prop := match o with LReq _ => True | _ => False end.
+Definition req_thread (th : lthread) : Prop :=
+  Forall is_req (lscript th) /\
+  ((lpcof th = LIdle /\ lheld th = 0) \/ (lpcof th = LInBody /\ lheld th = 1)).
+
+Definition MInv (s : lstate) : Prop := lrogue s = false /\ Forall req_thread (lthreads s).
+
+Lemma mc_step n s x s' : LInv n s -> MInv s -> lstep s x = Some s' -> MInv s'.
+Proof.
+  intros HL [R F] H. unfold lstep in H.
+  destruct (Nat.ltb x (length (lthreads s))).
+  - destruct (nth_error (lthreads s) x) as [th|] eqn:Ht; [|discriminate].
+    destruct (lcur th) as [o|] eqn:Ho; [|discriminate].
+    pose proof (Forall_nth _ _ _ _ F Ht) as [Sc St].
+    assert (Hreq : is_req o). { rewrite Forall_forall in Sc. apply Sc. eapply nth_error_In; eauto. }
+    destruct o; try contradiction. unfold lstep_thread in H. cbv zeta in H.
+    destruct St as [[Epc Eh]|[Epc Eh]]; rewrite Epc in H.
+    + destruct (Nat.ltb (lc s) (lcap s)); inversion H; subst s'; (split; [exact R|]); cbn;
+        apply Forall_upd_nth; auto; (split; [exact Sc|]); cbn; rewrite Eh; auto.
+    + assert (Hc : 0 < lc s).
+      { destruct HL as [A B C D E]. rewrite <- (D R). unfold lholders.
+        pose proof (sumf_upd_nth lheld (lthreads s) x th th Ht). 
+        assert (lheld th <= sumf lheld (lthreads s)).
+        { clear -Ht. revert x Ht. induction (lthreads s) as [|z l IH]; intros [|x] Hx; cbn in *; try discriminate.
+          - inversion Hx; subst. lia. - specialize (IH _ Hx). lia. }
+        lia. }
+      destruct (Nat.ltb_spec 0 (lc s)); [|lia]. inversion H; subst s'. split; cbn.
+      * rewrite R, Eh. reflexivity.
+      * apply Forall_upd_nth; auto. split; cbn; auto. left. rewrite Eh. auto.
+  - unfold lstep_timer in H.
+    destruct (nth_error (lthreads s) (x - length (lthreads s))) as [th|] eqn:Ht; [|discriminate].
+    pose proof (Forall_nth _ _ _ _ F Ht) as [Sc [[Epc _]|[Epc _]]]; rewrite Epc in H; discriminate.
+Qed.
+
+Lemma maxconns_idle_means_zero_l : forall n scripts sched,
+  Forall (Forall is_req) scripts ->
+  let s := lexec n scripts sched in
+  lrogue s = false /\ lc s = linbody s /\
+  ((forall th, In th (lthreads s) -> lpcof th <> LInBody) -> lc s = 0).
+Proof.
+  intros n scripts sched Hs s.
+  assert (H : LInv n s /\ MInv s).
+  { unfold s, lexec. apply (run_inv lstep (fun s => LInv n s /\ MInv s)).
+    - intros s0 t s1 [A B] Hst. split; [eapply lstep_inv; eauto | eapply mc_step; eauto].
+    - split; [apply linit_inv|]. split; [reflexivity|]. cbn. apply Forall_forall.
+      intros th Hin. apply in_map_iff in Hin. destruct Hin as (sc & <- & Hsc).
+      rewrite Forall_forall in Hs. split; cbn; auto. }
+  destruct H as [[A B C D E] [R F]].
+  assert (Heq : lholders s = linbody s).
+  { unfold lholders, linbody. apply sumf_ext. intros th Hin. rewrite Forall_forall in F.
+    destruct (F th Hin) as [_ [[Epc Eh]|[Epc Eh]]]; rewrite Epc, Eh; reflexivity. }
+  split; [exact R|]. split; [rewrite <- (D R); exact Heq|].
+  intros Hno. rewrite <- (D R), Heq. unfold linbody. apply sumf_zero.
+  intros th Hin. specialize (Hno th Hin). destruct (lpcof th); try reflexivity. contradiction.
+Qed.
+
+Lemma pool_destroys_only_expired_l : forall n ma scripts sched t s' y,
+  let s := pexec n ma scripts sched in
+  pstep s t = Some s' -> In y (pdestroyed s') ->
+  In y (pdestroyed s) \/ exists last, In (y, last) (pidle s) /\ (0 < ma /\ last + ma < pclock s)%Z.
+Proof.
+  intros n ma scripts sched t s' y s H Hy.
+  destruct (pstep_destroys s t s' y H Hy) as [A|(last & A & B)]; [left; exact A|right].
+  exists last. split; [exact A|]. unfold s in B. rewrite pexec_maxage in B. fold s in B.
+  unfold expired in B. apply andb_prop in B. destruct B as [B1 B2].
+  apply Z.ltb_lt in B1. apply Z.ltb_lt in B2. split; assumption.
+Qed.
